@@ -2,6 +2,7 @@ package chain
 
 import (
 	"fmt"
+	"github.com/oasisprotocol/oasis-core/go/roothash/api/message"
 
 	"github.com/oasisprotocol/oasis-core/go/common"
 	"github.com/oasisprotocol/oasis-core/go/common/crypto/hash"
@@ -37,6 +38,8 @@ type ExecutorResult struct {
 	Failure   bool
 	StateRoot hash.Hash
 	IORoot    hash.Hash
+	// Messages: what the runtime emits in this round (every commitment names their hash, the scheduler's carries them).
+	Messages []message.Message
 }
 
 // NewExecutorCommitment builds and signs (with the node's identity key) an executor commitment for the round after
@@ -55,6 +58,12 @@ func NewExecutorCommitment(rt common.Namespace, nk *NodeKeys, scheduler signatur
 		var empty hash.Hash
 		empty.Empty()
 		sr, io, mh, ih := res.StateRoot, res.IORoot, empty, empty
+		if len(res.Messages) > 0 {
+			mh = message.MessagesHash(res.Messages)
+			if nk.ID.Public().Equal(scheduler) {
+				ec.Messages = res.Messages
+			}
+		}
 		ec.Header.Header.StateRoot = &sr
 		ec.Header.Header.IORoot = &io
 		ec.Header.Header.MessagesHash = &mh
